@@ -223,6 +223,7 @@ func TestC07(t *testing.T) {
 	cfg.RefPool = []string{"", "", "r1"}
 	cfg.ReadFaults = 2
 	cfg.Cancels = 1
+	cfg.Faults = 1         // a batch insert fails: the process dies, the retry comes after the restart
 	cfg.HandoffCancels = 2 // the caller goes away while its entry is in flight, and the same key comes again
 	cfg.Holds = 1
 	runProp(t, c, func(rt *rapid.T) {
@@ -428,8 +429,12 @@ func TestC16(t *testing.T) {
 	cfg.RefPool = nil // bursts of writes that all commit: several logs queued behind the one being persisted
 	runProp(t, c, func(rt *rapid.T) {
 		plan := enginesim.GenPlan(rt, cfg)
-		// the property speaks about replays: the same request sent again with its key
-		identicalKeyGroups(plan)
+		// the property speaks about replays: the same request sent again with its key; now and then a key comes back
+		// on a different request of any kind (a client's mistake): whatever is published then must still describe
+		// an entry that exists
+		if rapid.IntRange(0, 3).Draw(rt, "identicalKeyGroups") > 0 {
+			identicalKeyGroups(plan)
+		}
 		r := runEngine(t, rt, c, plan)
 		if r == nil {
 			return
